@@ -65,8 +65,69 @@ def body_proj_init_rng(E, n, deficient_calls):
         E.prove(len(used) == 0, 'proj-init:no-random-fallback')
 
 
+def body_proj_init_revert(E, n, improving_call):
+    """projections branch of initialise_coordinate_directions, rank-deficient directions: the repair loops try sign flips chosen by
+    np.random; a flip that did not raise the rank must leave no trace, so that the directions evaluated depend on the random selectors only
+    through WHICH improving flip was found, never through the unsuccessful ones"""
+    from ..state import mk_params, mk_objfun, EvalLog
+    np = E.np
+    log = EvalLog()
+    objfun = mk_objfun(E, 1, log)
+    params = mk_params(E, n, n + 1, 50)
+    x0 = E.vec('x0_', n)
+    P = [lambda w: w, lambda w: w]
+    big = E.const(10 ** 20)
+    xl = E.arr([-big] * n, 'f') if E.symbolic else np.array([-1e20] * n)
+    xu = E.arr([big] * n, 'f') if E.symbolic else np.array([1e20] * n)
+    C = E.get('Controller')(objfun, (), x0.copy(), E.vec('r0_', 1), 1, xl, xu, P, n + 1, E.const('0.5'), E.const('0.0005'), 1, 1, 50, params, None, False)
+    dyk = []
+
+    def dykstra(P_, x, max_iter=100, tol=1e-10):
+        out = E.vec('dy%d_' % len(dyk), n)
+        dyk.append({'arg': x.copy(), 'out': out, 'qr': len(ranks)})
+        return out
+    E.patch('dykstra', dykstra)
+    ranks = []
+
+    def qr_rank(A, tol=1e-15):
+        r = n - 1 if len(ranks) < improving_call else n
+        ranks.append(r)
+        d = E.vec('diag%d_' % len(ranks), n, lo=0)
+        return r, d
+    E.patch('qr_rank', qr_rank)
+    draws = []
+
+    def rng(kind, size, **kw):
+        draws.append(kind)
+        if kind == 'randint':
+            # the first three selector vectors are arbitrary, later ones select every row (bounded scenario)
+            return E.vec('sel%d_' % len(draws), size[0], dtype='i', lo=0, hi=1) if len(draws) <= 3 else np.ones(size, dtype=int)
+        return E.vec('nrm%d_' % len(draws), size[0])
+    E.hooks(rng=rng)
+    E.assume_norms_positive(True)
+    try:
+        C.initialise_coordinate_directions(1, n, params)
+    except RuntimeError:
+        E.reach('proj-init-revert:gives-up')
+        return
+    if len(dyk) < 2 * n or len(log.calls) < n:
+        E.reach('proj-init-revert:early-exit')
+        return
+    xb = C.model.xbase
+    orig = [dyk[k]['out'] - xb for k in range(n)]
+    final = [dyk[len(dyk) - n + k]['arg'] - xb for k in range(n)]
+    tries = dyk[n:len(dyk) - n]
+    # the flip (or random replacement) tried immediately before the rank test that reported the improvement
+    kept = [t['out'] - xb for t in tries if t['qr'] == improving_call]
+    for k in range(n):
+        cands = [orig[k]] + kept
+        E.prove(E.any([E.all([E.eq(final[k][i], c[i]) for i in range(n)]) for c in cands]),
+                'proj-init:unsuccessful-sign-flips-leave-no-trace')
+    E.reach('proj-init-revert:checked')
+
+
 def harnesses(tier, seed):
-    hs = outer.outer_harnesses(tier, seed, 'C19') + step.step_harnesses(tier, seed, 'C19') + runstart.start_harnesses(tier, seed, 'C19')
+    hs = outer.outer_harnesses(tier, seed, 'C19') + step.step_harnesses(tier, seed, 'C19') + step.action_harnesses(tier, seed, 'C19') + runstart.start_harnesses(tier, seed, 'C19')
     for h in c09.harnesses(tier, seed):
         if h.name.startswith('prologue['):
             h.home = 'C09'
@@ -82,6 +143,11 @@ def harnesses(tier, seed):
                           assumptions=["dykstra, qr_rank stubbed (arbitrary outputs); symbolic execution only (SymEnv storage subclass), no concrete replay"],
                           nproc=1, replay=False, wall_budget=200, max_paths=3000,
                           expect=['proj-init:random-draws-unused-when-coordinate-directions-are-independent']))
+    for ic in ((3, 4) if tier == 'quick' else (2, 3, 4, 5, 6)):
+        hs.append(Harness("projections-init-revert[n=2,improving-rank-test=%d]" % ic, 'dfverif.checks.c19', 'body_proj_init_revert', params=dict(n=2, improving_call=ic),
+                          cfg=core.Cfg(qtimeout_ms=20000, uflin=True), functions=['controller.Controller.initialise_coordinate_directions'],
+                          bounds="n=2, projections branch; the direction matrix is reported rank deficient until rank test number %d; first three random selector vectors arbitrary" % ic,
+                          assumptions=["dykstra: fresh vector per call; qr_rank: rank by scenario, arbitrary diagonal"], nproc=1, wall_budget=200, max_paths=4000, max_replays=2))
     return hs
 
 
